@@ -21,10 +21,10 @@ Print Assumptions C19_phases.
 (* (3) back / back11, every machine, region, row between simple states, event, runtime state and valuation that
    lets the guard pass: the guard, exit, action and entry behaviours observe exactly observed_id for the
    transitioning region (all other regions unchanged), and afterwards the region is at the target *)
-Theorem C19_observed_back : forall cf mc fuel r rid cur nxt ev rn g,
+Theorem C19_observed_back : forall cf contained mc fuel r rid cur nxt ev rn g,
   plain_state mc nxt -> c_pol cf < 4 ->
   g_plan g = [] -> memb rid (g_val g) = true ->
-  exec_row cf mc (no_children mc) fuel r (Row rid cur (TrEv (e_ty ev)) (TgState nxt) true ActCall None) ev rn g =
+  exec_row cf contained mc (no_children mc) fuel r (Row rid cur (TrEv (e_ty ev)) (TgState nxt) true ActCall None) ev rn g =
     (Some HANDLED_TRUE,
      set_act rn (upd (act rn) r nxt),
      Glob (expected_items (c_pol cf) r cur nxt rid ev (act rn) ++ g_tr g)
@@ -49,6 +49,6 @@ Example C19_example :
   let mc := Machine [State KSimple None [] [] [] 0; State KSimple None [] [] [] 0] [0] [] [] HNone in
   let cf := Cfg Back false 2 false in
   plain_state mc 1 /\ c_pol cf < 4 /\
-  fst (exec_row cf mc (no_children mc) 5 0 (Row 7 0 (TrEv 4) (TgState 1) true ActCall None) (Evt 4 9)
+  fst (exec_row cf false mc (no_children mc) 5 0 (Row 7 0 (TrEv 4) (TgState 1) true ActCall None) (Evt 4 9)
          (init_rnode mc) (Glob [] 0 [] [7] [] 0)) = (Some 1, RN [1] [None; None] [0] [] [] 0%Z false false).
 Proof. vm_compute. repeat split; auto. Qed.
